@@ -485,3 +485,16 @@ mod tests {
     }
 }
 
+
+/// Verification hooks: constructors for the structs whose fields are private
+/// (compiled only with the `verif_hooks` feature).
+#[cfg(feature = "verif_hooks")]
+pub mod verif_hooks {
+    use super::*;
+    pub fn linear_axis(robot: Arc<dyn Kinematics>, axis: u32, base: Isometry3<f64>) -> LinearAxis {
+        LinearAxis { robot, axis, base }
+    }
+    pub fn gantry(robot: Arc<dyn Kinematics>, base: Isometry3<f64>) -> Gantry {
+        Gantry { robot, base }
+    }
+}
